@@ -720,6 +720,20 @@ def C11_db_json_roundtrip_from_inputs : Prop :=
     (∀ p ls, ∀ t ∈ toTaxa p ls, strOk t.name = true) →
     loads (getJsonText (dbToJson db)) = some (dbToJson db)
 
+/-- **The JSON value determines the database**: two databases whose spans are naturals (line numbers) and that have
+the same `data` value have the same records, indexes and import tables. With `C11_db_json_roundtrip`: what
+`json.loads` returns on the file written by `collect` determines the database that was computed. -/
+theorem C11_dbToJson_injective {a b : Db} (ha : spansNat a) (hb : spansNat b) (h : dbToJson a = dbToJson b) : a = b :=
+  dbToJson_inj ha hb h
+
+/-- Non-vacuity on a `makeDb` output: `a.py` (non-ASCII source, an `import:b` label that the relabelling turns into
+`import_internally:b`) imports `b.py`; the database is hygienic, and the theorem applies to it. -/
+example : makeDb demoTaxa demoProgs = .ok demoOut ∧ dbOk demoOut = true ∧
+    loads (getJsonText (dbToJson demoOut)) = some (dbToJson demoOut) :=
+  ⟨demo_makeDb, by decide +kernel, C11_db_json_roundtrip demo_makeDb (by decide +kernel)⟩
+example : loadsIs (getJsonText (dbToJson demoOut)) (dbToJson demoOut) = true ∧
+    demoOut.importations = [(codesOf "a.py", [codesOf "b.py"]), (codesOf "b.py", [])] := by decide +kernel
+
 end JsonDbLayer
 
 end JsonTextLayer
